@@ -19,8 +19,11 @@ Absent == 0 - 1
 VARIABLES tab, now, notes, reply, alive
 vars == <<tab, now, notes, reply, alive>>
 
+\* replies are records of one shape (k = none | OK | noreply | answer); only answers carry registrations
+R(k) == [k |-> k, set |-> {}, times |-> [a \in {} |-> 0]]
+
 Init == /\ tab = [n \in Names |-> [a \in Addrs |-> Absent]]
-        /\ now = 0 /\ notes = <<>> /\ reply = "none" /\ alive = TRUE
+        /\ now = 0 /\ notes = <<>> /\ reply = R("none") /\ alive = TRUE
 
 Members(n) == {a \in Addrs : tab[n][a] # Absent}
 
@@ -32,7 +35,7 @@ AddedLog(ns, a) == IF ns = {} THEN <<>>
 Register(a, ns) == /\ alive /\ ns # {}
                    /\ tab' = [n \in Names |-> IF n \in ns THEN [tab[n] EXCEPT ![a] = now] ELSE tab[n]]
                    /\ notes' = AddedLog(ns, a)
-                   /\ reply' = "OK"
+                   /\ reply' = R("OK")
                    /\ UNCHANGED <<now, alive>>
 
 \* unregister (host, port): it leaves every service it is a member of; `removed` fires exactly for those
@@ -43,7 +46,7 @@ RemovedLog(ns, a) == IF ns = {} THEN <<>>
 Unregister(a) == /\ alive
                  /\ tab' = [n \in Names |-> [tab[n] EXCEPT ![a] = Absent]]
                  /\ notes' = RemovedLog(Names, a)
-                 /\ reply' = "OK"
+                 /\ reply' = R("OK")
                  /\ UNCHANGED <<now, alive>>
 
 \* query: members whose refresh is older than the pruning interval leave the table (and are notified); the others are
@@ -53,13 +56,13 @@ Fresh(n) == Members(n) \ Stale(n)
 Query(n) == /\ alive
             /\ tab' = [tab EXCEPT ![n] = [a \in Addrs |-> IF a \in Stale(n) THEN Absent ELSE tab[n][a]]]
             /\ notes' = [i \in 1..Cardinality(Stale(n)) |-> <<"removed", n>>]   \* one per pruned address (their set: Stale(n))
-            /\ reply' = [set |-> Fresh(n), times |-> [a \in Fresh(n) |-> tab[n][a]]]
+            /\ reply' = [k |-> "answer", set |-> Fresh(n), times |-> [a \in Fresh(n) |-> tab[n][a]]]
             /\ UNCHANGED <<now, alive>>
 
-Tick == /\ now < T /\ now' = now + 1 /\ notes' = <<>> /\ reply' = "none" /\ UNCHANGED <<tab, alive>>
+Tick == /\ now < T /\ now' = now + 1 /\ notes' = <<>> /\ reply' = R("none") /\ UNCHANGED <<tab, alive>>
 
 \* anything malformed or silent: no registration changes, nothing is notified, the loop lives on
-Malformed(k) == /\ alive /\ reply' = "noreply" /\ notes' = <<>> /\ UNCHANGED <<tab, now, alive>>
+Malformed(k) == /\ alive /\ reply' = R("noreply") /\ notes' = <<>> /\ UNCHANGED <<tab, now, alive>>
 
 Next == \/ \E a \in Addrs, ns \in (SUBSET Names) \ {{}} : Register(a, ns)
         \/ \E a \in Addrs : Unregister(a)
